@@ -774,4 +774,113 @@ func checkSaveScheduled(c *km.Ctx) {
 		}
 		r.Add("R-C20-4", km.FuncName(loop), "recorded event schedules a save", posOf(c, rc), "every trip round the event loop that records this event re-arms the save timer", sprintf("%v", ok), ok)
 	}
+	// the snapshot handed to the saver and to history requests is cached in a local variable (the one whose address
+	// getEventsList receives): every trip that records an event has to drop it, on every path - otherwise the next
+	// save writes the snapshot taken before the event and the event is missing after a restart
+	var cell *ssa.Alloc
+	km.Instrs(loop, func(in ssa.Instruction) {
+		if ci, ok := in.(ssa.CallInstruction); ok {
+			if f := km.StaticCallee(ci.Common()); f != nil && km.NameOf(f) == "getEventsList" {
+				for _, a := range km.CallArgs(ci.Common()) {
+					if al, isA := km.Unwrap(a).(*ssa.Alloc); isA {
+						cell = al
+					}
+				}
+			}
+		}
+	})
+	if cell == nil {
+		return // no cached snapshot: every request and save rebuilds the list
+	}
+	storesNil := func(in ssa.Instruction, addr ssa.Value) bool {
+		st, ok := in.(*ssa.Store)
+		return ok && st.Addr == addr && km.IsNilConst(st.Val)
+	}
+	// closures of the loop that drop the snapshot on every path from entry to return
+	dropping := map[*ssa.Function]bool{}
+	for _, a := range loop.AnonFuncs {
+		var fv ssa.Value
+		// the free variable bound to the cell: found through the MakeClosure that creates a
+		km.Instrs(loop, func(in ssa.Instruction) {
+			if mc, ok := in.(*ssa.MakeClosure); ok && mc.Fn == ssa.Value(a) {
+				for i, b := range mc.Bindings {
+					if b == ssa.Value(cell) && i < len(a.FreeVars) {
+						fv = a.FreeVars[i]
+					}
+				}
+			}
+		})
+		if fv == nil || len(a.Blocks) == 0 {
+			continue
+		}
+		dropBlocks := map[*ssa.BasicBlock]bool{}
+		km.Instrs(a, func(in ssa.Instruction) {
+			if storesNil(in, fv) {
+				dropBlocks[in.Block()] = true
+			}
+		})
+		// a return reachable from the entry without passing a dropping block?
+		escapes := false
+		seen := map[*ssa.BasicBlock]bool{}
+		var walk func(b *ssa.BasicBlock)
+		walk = func(b *ssa.BasicBlock) {
+			if seen[b] || dropBlocks[b] {
+				return
+			}
+			seen[b] = true
+			if _, isRet := b.Instrs[len(b.Instrs)-1].(*ssa.Return); isRet {
+				escapes = true
+			}
+			for _, sc := range b.Succs {
+				walk(sc)
+			}
+		}
+		walk(a.Blocks[0])
+		if !escapes && len(dropBlocks) > 0 {
+			dropping[a] = true
+		}
+	}
+	dBlocks := map[*ssa.BasicBlock]bool{}
+	km.Instrs(loop, func(in ssa.Instruction) {
+		if storesNil(in, cell) {
+			dBlocks[in.Block()] = true
+		}
+		if ci, ok := in.(ssa.CallInstruction); ok {
+			if mc, ok := km.Unwrap(ci.Common().Value).(*ssa.MakeClosure); ok {
+				if f, ok := mc.Fn.(*ssa.Function); ok && dropping[f] {
+					dBlocks[in.Block()] = true
+				}
+			}
+			if f := km.StaticCallee(ci.Common()); f != nil && dropping[f] {
+				dBlocks[in.Block()] = true
+			}
+		}
+	})
+	avoidD := func(from *ssa.BasicBlock) map[*ssa.BasicBlock]bool {
+		seen := map[*ssa.BasicBlock]bool{}
+		var walk func(b *ssa.BasicBlock)
+		walk = func(b *ssa.BasicBlock) {
+			if seen[b] || dBlocks[b] {
+				return
+			}
+			seen[b] = true
+			for _, sc := range b.Succs {
+				walk(sc)
+			}
+		}
+		walk(from)
+		return seen
+	}
+	for _, rc := range records {
+		b := rc.Block()
+		ok := true
+		if !dBlocks[b] {
+			for _, sc := range b.Succs {
+				if avoidD(sc)[b] {
+					ok = false
+				}
+			}
+		}
+		r.Add("R-C20-4", km.FuncName(loop), "recorded event drops the cached snapshot", posOf(c, rc), "every trip round the event loop that records this event sets the cached event list to nil, on every path", sprintf("%v", ok), ok)
+	}
 }
